@@ -69,6 +69,8 @@ def sStep (s : SState) (oj : Json) : SState × Json :=
   | "discuss" => let s' := { s with rel := s.rel.discuss (getStr oj "t") }; (s', sJson .null s')
   | "rel_roundtrip" => let s' := { s with rel := s.rel.roundTrip }; (s', sJson .null s')
   | "wallet_roundtrip" => let s' := { s with w := Wallet.new s.w.gold }; (s', sJson .null s')
+  | "inv_roundtrip" => (s, sJson .null s)        -- `from_dict(to_dict(inv))`: the same inventory
+  | "shop_roundtrip" => (s, sJson .null s)
   | "roll" =>
     let outs := (getArr oj "outs").map fun j => match j with | .num n => n.mantissa | _ => 0
     (s, sJson (.num (JsonNumber.fromInt (rollWith outs (getInt oj "mod")))) s)
